@@ -103,6 +103,14 @@ Theorem C04_copula_margins : forall mid ms, Forall cm_ok ms ->
                    == cm_md m + mean_rate (cm_m1t m) (cm_pinf m) (cm_rep m) (cm_fv m) (cm_a m)) ms.
 Proof. exact copula_margins_mean. Qed.
 
+(* the diffusion matrix of the (repaired) copula chain, margin by margin: nothing is added to sigma_k^2 for a margin of finite
+   variation, the margin's second moment over the central cell [-h/2, h/2] for infinite variation *)
+Theorem C04_copula_variance_added : forall h ms, 0 < h -> h <= 2 -> Forall cv_ok ms ->
+  Forall (fun m => let '(m2, l, r, sigma, fv) := m in
+            sig_h2 (tmass m2 l r) sigma fv h == sigma * sigma + (if fv then 0 else tmass m2 l r (- (h / 2)) (h / 2))
+            /\ sigma * sigma <= sig_h2 (tmass m2 l r) sigma fv h) ms.
+Proof. exact copula_variance_added. Qed.
+
 (* VARIANCE GAP.  q_k = nu(cell_k) (mass), int_cell x^2 nu (m2); if on every cell inf2 k <= x^2 <= sup2 k (so that, x^2 nu being
    non-negative, inf2 k * q_k <= int_cell_k x^2 nu <= sup2 k * q_k -- the hypothesis C09 discharges) then the rate-weighted
    second moment of the states differs from the second moment of the measure OUTSIDE the central cell by at most the per-cell
@@ -162,6 +170,7 @@ Print Assumptions C04_joint_flag_bias.
 Print Assumptions C04_variance_added.
 Print Assumptions C04_mean_identity_infinite_variation.
 Print Assumptions C04_copula_margins.
+Print Assumptions C04_copula_variance_added.
 Print Assumptions C04_variance_gap.
 Print Assumptions C04_step_m1_additive.
 Print Assumptions C04_nonvacuous.
